@@ -33,11 +33,16 @@ def one(harness, bound, build='plain', budget=120, opts=None, **params):
     return McRun(BIN, harness, params, bound=bound, mode=build, opts=opts, budget=budget)
 
 
-def n2(harness, bound, modes, waits=(1, 0), budget=300, **params):
-    """Preemptive exploration on a pool of 2 (or more) threads. The adaptive+wait combination (stripe path) gets its own run with
-    free_switch_cost=1 and bound 1: with two stealers spinning on a stripe whose retirement is preempted, free switches at
-    the spin-yields make the schedule space unbounded (each round advances the cursor, so no two states are equal)."""
+def n2(q, harness, bound, modes, waits=(1, 0), budget=300, **params):
+    """Preemptive exploration on a pool of 2 threads. quick: free_switch_cost=1, i.e. at most `bound` non-default scheduling
+    decisions of any kind (a preemption, or a non-default pick where the running thread blocked or yielded) - a pool of 2 at
+    bound 1 with free switches costs 5000-15000 executions per configuration. thorough: preemption bound with free switches,
+    except for the adaptive+wait combination (stripe path), which keeps free_switch_cost=1 and bound 1: with two stealers
+    spinning on a stripe whose retirement is preempted, free switches at the spin-yields make the schedule space unbounded
+    (each round advances the cursor, so no two states are equal)."""
     out = []
+    if q:
+        return [one(harness, bound, mode=list(modes), wait=list(waits), opts=ONE, budget=budget, **params)]
     rest = [m for m in modes if m != 'a']
     if rest:
         out.append(one(harness, bound, mode=rest, wait=list(waits), budget=budget, **params))
@@ -95,18 +100,19 @@ def c12_runs(tier):
     runs.append(one('pf_one', 1, type='i32', n=1, size=[3, 5, 8], mode=M4, wait=[1, 0], budget=200))
     if not q:
         runs.append(one('pf_one', 2, type='i32', n=1, size=[5, 8], mode=['s', 'a', 'c3'], wait=[1, 0], budget=900))
-    runs += n2('pf_one', 1, ['s', 'a', 'c3'], type='i32', n=2, size=[5] if q else [5, 8])
+    runs += n2(q, 'pf_one', 1, ['s', 'a', 'c3'], type='i32', n=2, size=[5] if q else [5, 8])
     runs.append(one('pf_one', 1, type='i8', n=1, at='max', size=[5, 8], mode=['s', 'a', 'c3'], wait=[1, 0], g=[1, 3], budget=200))
     runs.append(one('pf_one', 0, type='i32', n=[1, 2], size=[3, 5, 8], mode=M4, wait=[1, 0], yield_=1, budget=100))
     runs.append(one('pf_one', 0, type='i32', n=2, size=[5, 8], mode=['s', 'a'], wait=[1, 0], yield_=1, settle=0, cts=1, budget=100))
     # the 64-bit ranges ending at the type's maximum (the stripe cursor has the index type's own width there)
     for t in ('i64', 'u64'):
         runs.append(one('pf_one', 1 if q else 2, type=t, n=1, at='max', off=[0, 1], size=[3, 4, 5, 8], mode=['a', 's', 'c3'], wait=[1, 0], budget=200 if q else 600))
-        runs += n2('pf_one', 1, ['a'], waits=(1,), type=t, n=2, at='max', size=[4, 5], budget=200)
+        runs += n2(q, 'pf_one', 1, ['a'], waits=(1,), type=t, n=2, at='max', size=[4, 5], budget=200)
     # sanitizer legs
-    runs.append(batch('i64', 'edge', 1, ['s', 'c3'], gs=(1, 3), mode='asan', budget=100))
-    runs.append(McRun(BIN, 'pf_one', dict(type='i8', n=1, at='min', size=5, mode='s', wait=0, g=2), bound=1, mode='tsan', budget=100))
-    runs.append(McRun(BIN, 'pf_one', {'type': 'i32', 'n': 2, 'size': 5, 'mode': 's.a.c3', 'wait': '1.0', 'yield': 1}, bound=0, mode='tsan', budget=100))
+    # sanitizer legs are kept to a handful of executions: a hand-off between real threads costs ~1 s in these builds when the machine is loaded
+    runs.append(batch('i16', 'edge', 1, ['s', 'a'], waits=(1,), mode='asan', budget=150))
+    runs.append(McRun(BIN, 'pf_one', {'type': 'i8', 'n': 1, 'at': 'min', 'size': 5, 'mode': 's.a', 'wait': '1.0', 'g': 2, 'yield': 1}, bound=0, mode='tsan', budget=100))
+    runs.append(McRun(BIN, 'pf_one', {'type': 'i32', 'n': 2, 'size': 5, 'mode': 'a', 'wait': 1, 'yield': 1}, bound=0, mode='tsan', budget=100))
     return runs
 
 
@@ -134,26 +140,28 @@ def c13_runs(tier):
     q = tier == 'quick'
     runs = []
     gs_small = (2, 3, 4, 5, 6, 7, 8, 9)
+    # pools of 2 threads split statically into 3 chunks: sizes up to 5g+1 are needed to get unequal chunks (gran5)
     if q:
         runs.append(batch('i32', 'gran', 1, ['s', 'a'], gs=gs_small, check=13))
-        runs.append(batch('i32', 'gran', 2, ['s', 'a'], gs=(2, 3, 4, 8), check=13))
+        runs.append(batch('i32', 'gran5', 2, ['s', 'a'], gs=(2, 3, 4, 8), check=13))
         runs.append(batch('i32', 'gran', 1, ['s', 'a'], gs=(16,), check=13))
         runs.append(batch('u8', 'gran', 2, ['s', 'a'], gs=(64,), waits=(1,), check=13))
     else:
         for n in (1, 2):
-            runs.append(batch('i32', 'gran', n, ['s', 'a'], gs=gs_small, check=13, budget=200))
-            runs.append(batch('i32', 'gran', n, ['s', 'a'], gs=(16,), check=13, budget=200))
+            st = 'gran' if n == 1 else 'gran5'
+            runs.append(batch('i32', st, n, ['s', 'a'], gs=gs_small, check=13, budget=300))
+            runs.append(batch('i32', st, n, ['s', 'a'], gs=(16,), check=13, budget=300))
             runs.append(batch('i32', 'gran', n, ['s', 'a'], gs=(64,), check=13, budget=400))
-        runs.append(batch('i64', 'gran', 2, ['s', 'a'], gs=gs_small, mis=(1, 4), check=13, budget=300))
+        runs.append(batch('i64', 'gran5', 2, ['s', 'a'], gs=gs_small, mis=(1, 4), check=13, budget=400))
         runs.append(batch('u8', 'gran', 2, ['s', 'a'], gs=(2, 3, 5, 16, 64), mts=(2, HUGE), check=13, budget=300))
         runs.append(batch('i8', 'sz12', 2, ['s', 'a'], gs=(2, 3, 7), check=13, budget=300))
     # schedules: bound 1 on g in {2,3} (2 in thorough for g=2), free-switch exploration of the body orders
     b = 1 if q else 2
     runs.append(one('pf_one', b, type='i32', check=13, n=1, g=2, off=[0, 1], size=[5, 7], mode=['s', 'a'], wait=[1, 0], budget=200 if q else 900))
     runs.append(one('pf_one', 1, type='i32', check=13, n=1, g=3, off=[0, 1, 2], size=[7, 10], mode=['s', 'a'], wait=[1, 0], budget=300))
-    runs += n2('pf_one', 1, ['s', 'a'], type='i32', check=13, n=2, g=2, off=[1] if q else [0, 1], size=[7])
-    runs.append(one('pf_one', 0, type='i32', check=13, n=[1, 2], g=[2, 3], off=[0, 1, 2], size=[7, 10], mode=['s', 'a'], wait=[1, 0], yield_=1, budget=200))
-    runs.append(McRun(BIN, 'pf_one', {'type': 'i32', 'check': 13, 'n': 1, 'g': 2, 'off': '0.1', 'size': 7, 'mode': 's', 'wait': '1.0'}, bound=1, mode='tsan', budget=100))
+    runs += n2(q, 'pf_one', 1, ['s', 'a'], type='i32', check=13, n=2, g=2, off=[1] if q else [0, 1], size=[9])
+    runs.append(one('pf_one', 0, type='i32', check=13, n=[1, 2], g=[2, 3], off=[0, 1, 2], size=[7, 10, 13], mode=['s', 'a'], wait=[1, 0], yield_=1, budget=200))
+    runs.append(McRun(BIN, 'pf_one', {'type': 'i32', 'check': 13, 'n': 2, 'g': 2, 'off': 0, 'size': 9, 'mode': 's', 'wait': 0, 'yield': 1}, bound=0, mode='tsan', budget=100))
     runs.append(batch('i32', 'gran', 2, ['s', 'a'], gs=(2, 3), check=13, mode='asan', budget=100))
     return runs
 
@@ -161,7 +169,7 @@ def c13_runs(tier):
 reg('C13', level='model_checking', runs=c13_runs, quick_budget_s=240, thorough_budget_s=1200,
     technique='the real parallel_for under the dmc scheduler with a chunk-recording body: exhaustive (start offset, size) enumeration per granularity on the '
               'default schedule, plus schedule exploration of single calls',
-    level_text='g in {2..9,16,64}: every start in [-g,g) (g=64: [0,g)) x every size 0..3g+1 x {static, adaptive} x wait x pools of 1-2 threads on the default '
+    level_text='g in {2..9,16,64}: every start in [-g,g) (g=64: [0,g)) x every size 0..3g+1 (0..5g+1 on pools of 2 threads, g<=16) x {static, adaptive} x wait x pools of 1-2 threads on the default '
                'schedule (quick: g=16/64 on one pool size each), plus int64_t, uint8_t and minItemsPerChunk/maxThreads variations (thorough); g in {2,3}: every '
                'schedule with <=1 preemption (2 thorough for g=2) on the static and adaptive-nowait paths and every order of bodies on all paths. Oracle on the '
                'recorded chunks: at most one has a size that is not a multiple of g, and that one ends at the range end.',
@@ -179,12 +187,12 @@ def c14_runs(tier):
     M = ['s', 'a', 'c2']
     # preemptive exploration
     runs.append(one('pf_state', 1, cont='v', n=1, size=S, g=G, mode=M, wait=[1, 0], budget=300))
-    runs += n2('pf_state', 1, ['s', 'a'] if q else M, cont='v', n=2, size=5, g=2, budget=400)
+    runs += n2(q, 'pf_state', 1, ['s', 'a'] if q else M, cont='v', n=2, size=5, g=2, budget=400)
     if not q:
         for c in ('l', 'd'):
             runs.append(one('pf_state', 1, cont=c, n=1, size=S, g=G, mode=M, wait=[1, 0], reuse=1, pre=2, budget=300))
         runs.append(one('pf_state', 2, cont='v', n=1, size=5, g=2, mode=['s', 'a'], wait=[1, 0], budget=900))
-        runs += n2('pf_state', 1, ['s', 'a'], cont='v', n=2, size=7, g=[1, 4], budget=400)
+        runs += n2(q, 'pf_state', 1, ['s', 'a'], cont='v', n=2, size=7, g=[1, 4], budget=400)
     # free-switch exploration (every order of the bodies), all option combinations
     runs.append(one('pf_state', 0, cont='v', n=2, size=[5, 7] if q else S, g=G, mode=M, wait=[1, 0], yield_=1, budget=300))
     for c in ('v', 'l', 'd'):
@@ -194,7 +202,7 @@ def c14_runs(tier):
             runs.append(one('pf_state', 0, cont=c, n=2, size=S, g=G, mode=M, wait=[1, 0], reuse=1, pre=1, yield_=1, budget=300))
         runs.append(one('pf_state', 0, cont='v', n=2, size=[5, 7], g=[1, 2], mode=M, wait=[1, 0], yield_=1, settle=0, cts=1, budget=300))
     runs.append(McRun(BIN, 'pf_state', {'cont': 'v', 'n': 1, 'size': 5, 'g': '1.2', 'mode': 's.a', 'wait': '1.0', 'yield': 1}, bound=0, mode='tsan', budget=100))
-    runs.append(McRun(BIN, 'pf_state', {'cont': 'd', 'n': 2, 'size': 7, 'g': 2, 'mode': 's.a.c2', 'wait': '1.0', 'reuse': '0.1', 'pre': 3, 'yield': 1}, bound=0, mode='asan', budget=100))
+    runs.append(McRun(BIN, 'pf_state', {'cont': 'd', 'n': 2, 'size': 7, 'g': 2, 'mode': 'a', 'wait': 0, 'reuse': 1, 'pre': 3, 'yield': 1}, bound=0, mode='asan', budget=100))
     return runs
 
 
@@ -219,7 +227,7 @@ def c15_runs(tier):
             runs.append(McRun(BIN, 'fe_batch', dict(n=n, wait=w, **{'yield': 1}), bound=0, opts=ONE, budget=40))
     A = dict(cont=['v', 'l', 'f'], cnt=[3, 4], wait=[1, 0], api=['n', 'e'])
     runs.append(one('fe_one', 1, n=1, mt=[2, 3] if q else [0, 1, 2, 3], budget=300, **A))
-    runs.append(one('fe_one', 1, n=2, cont='v' if q else ['v', 'l', 'f'], cnt=3, mt=3 if q else [2, 3], wait=[1, 0], api='n', budget=300))
+    runs.append(one('fe_one', 1, n=2, cont=['v', 'l', 'f'], cnt=3, mt=[2, 3], wait=[1, 0], api='n', opts=ONE if q else None, budget=400))
     runs.append(one('fe_one', 0, n=[1, 2], mt=[0, 1, 2, 3], yield_=1, budget=200, **A))
     if not q:
         runs.append(one('fe_one', 2, n=1, cont=['v', 'f'], cnt=3, mt=2, wait=[1, 0], api='n', budget=600))
@@ -256,16 +264,16 @@ def c48_runs(tier):
     runs.append(one('fe_one', 0, check=48, n=[1, 2], cont=['v', 'l', 'f'], cnt=[4, 7], mt=[0, 1, 2, 3], wait=[1, 0], api='n', yield_=1, budget=200))
     runs.append(one('fe_one', 1, check=48, n=3, cont=['v', 'f'], cnt=7, mt=[2, 3, 4], wait=[1, 0], api='n', yield_=1, opts=ONE, budget=300))
     # preemptions
-    runs += n2('pf_one', 1, ['s', 'a'], type='i32', check=48, n=2, mt=2, g=[1, 2], size=5)
-    runs.append(one('fe_one', 1, check=48, n=2, cont='v', cnt=4, mt=2, wait=[1, 0], api='n', budget=300))
+    runs += n2(q, 'pf_one', 1, ['s', 'a'], type='i32', check=48, n=2, mt=2, g=[1, 2], size=5)
+    runs.append(one('fe_one', 1, check=48, n=2, cont='v', cnt=4, mt=2, wait=[1, 0], api='n', opts=ONE if q else None, budget=300))
     if not q:
         runs.append(one('pf_one', 1, type='i32', check=48, n=2, mt=[2, 3], mode=['c2'], wait=[1, 0], size=5, budget=300))
-        runs += n2('pf_one', 1, ['s', 'a'], type='i32', check=48, n=2, mt=3, g=[1, 2], size=7)
+        runs += n2(q, 'pf_one', 1, ['s', 'a'], type='i32', check=48, n=2, mt=3, g=[1, 2], size=7)
         runs.append(one('pf_one', 2, type='i32', check=48, n=2, mt=2, mode='s', wait=0, g=2, size=5, budget=900))
         runs.append(one('fe_one', 1, check=48, n=2, cont=['l', 'f'], cnt=4, mt=2, wait=[1, 0], api='n', budget=300))
         runs.append(one('pf_one', 0, type='i32', check=48, n=2, mt=[2, 3], mode=M, wait=[1, 0], g=[1, 2], size=7, yield_=1, settle=0, cts=1, budget=200))
-    runs.append(McRun(BIN, 'pf_one', {'type': 'i32', 'check': 48, 'n': 2, 'mt': '2.3', 'mode': 's.a', 'wait': '1.0', 'size': 7, 'yield': 1}, bound=0, mode='tsan', budget=100))
-    runs.append(McRun(BIN, 'fe_one', {'check': 48, 'n': 2, 'cont': 'l', 'cnt': 4, 'mt': '2.3', 'wait': '1.0', 'yield': 1}, bound=0, mode='asan', budget=100))
+    runs.append(McRun(BIN, 'pf_one', {'type': 'i32', 'check': 48, 'n': 2, 'mt': 3, 'mode': 'a', 'wait': 1, 'size': 7, 'yield': 1}, bound=0, mode='tsan', budget=100))
+    runs.append(McRun(BIN, 'fe_one', {'check': 48, 'n': 2, 'cont': 'l', 'cnt': 4, 'mt': 2, 'wait': 0, 'yield': 1}, bound=0, mode='asan', budget=100))
     return runs
 
 
